@@ -172,7 +172,9 @@ OnRecv(s, c, m) ==
       \* ---- C14: views
       v0 == Get(s1.view, c, <<>>)
       isuser == m.type = "user"
-      c14 == IF ~isuser THEN "ok"
+      \* (pipelined: the monitor updates membership and views when a stimulus is SENT, the server when it gets to it; what is
+      \*  in flight in between is judged at quiescence only)
+      c14 == IF ~isuser \/ s1.pipe THEN "ok"
              ELSE IF ~IsMember(s1, c) THEN "C14_user_event_sent_to_non_member"
              ELSE IF m.kind = "add" /\ Has(v0, m.id) THEN "C14_duplicate_add"
              ELSE IF m.kind = "delete" /\ ~Has(v0, m.id) THEN "C14_delete_of_unknown_user"
